@@ -345,3 +345,8 @@ def run(ck):
     # ---- R7: a backup is what the rollback restores - mode and existence included (shared with C04-R1) ----------------------------------
     from .c18 import ck_alias
     c04.r1_fields_restored(ck_alias(ck, "C08-R7"))
+    # the undo re-inserts the hunk's own lines; that restores the file only because a hunk is placed solely where the file's lines
+    # equal them byte for byte (the comparison of the trial, C02-R4) - a backup is the rolled-back state; it equals the pre-patch file only if that holds
+    from . import c02 as _c02
+    from .c18 import ck_alias as _alias
+    _c02.r4(_alias(ck, "C08-R8"))
